@@ -657,6 +657,30 @@ static void run_case(int k, const std::string & head, const std::string & body)
             ok = regs[REGI(1)].AddMessage(mkstr(nm), deep_clone(regs[REGI(3)])).IsOK();
             if (ok) {OItem it; it.sub = oclone(oregs[REGI(3)]); oadd(oregs[REGI(1)], nm, B_MESSAGE_TYPE, it);}
          }
+         else if ((c == "nk")&&(a.size() == 5))
+         {
+            // wrap register r <count> times: each level is a Message with the given what-code, an optional "fn" string,
+            // and the previous level as its one "kid" sub-Message (deep archive nesting)
+            const uint32 count = u32(a[2]), what = u32(a[3]);
+            MessageRef cur = GetMessageFromPool(regs[REGI(1)]);
+            std::shared_ptr<OMsg> ocur = oclone(oregs[REGI(1)]);
+            ok = (cur() != NULL);
+            for (uint32 i=0; (ok)&&(i<count); i++)
+            {
+               MessageRef outer = GetMessageFromPool(what);
+               std::shared_ptr<OMsg> oouter(new OMsg); oouter->what = what;
+               if (a[4] != "-")
+               {
+                  const Bytes fn = unhex(a[4]);
+                  ok = outer()->AddString("fn", mkstr(fn)).IsOK();
+                  OItem it; it.bytes = fn; Bytes nm; nm.push_back('f'); nm.push_back('n'); oadd(*oouter, nm, B_STRING_TYPE, it);
+               }
+               if (ok) ok = outer()->AddMessage("kid", cur).IsOK();
+               OItem it; it.sub = ocur; Bytes nm; nm.push_back('k'); nm.push_back('i'); nm.push_back('d'); oadd(*oouter, nm, B_MESSAGE_TYPE, it);
+               cur = outer; ocur = oouter;
+            }
+            if (ok) {regs[REGI(1)] = *cur(); oregs[REGI(1)] = *ocur;}
+         }
          else if ((c == "n")&&(a.size() == 3))
          {
             onode.present = true; onode.numChildren = u32(a[1]); onode.name = unhex(a[2]);
